@@ -479,10 +479,26 @@ class InterpStmts:
                 continue
             sa = s.assume(t)
             if self.feasible(sa):
-                yield from self.exec_block(stmt.body, sa.note("if@%d" % stmt.lineno))
+                yield from self.block_or_dead(stmt.body, sa.note("if@%d" % stmt.lineno), "if@%d" % stmt.lineno)
             sb = s.assume(z3.Not(t))
             if self.feasible(sb):
-                yield from self.exec_block(stmt.orelse, sb.note("else@%d" % stmt.lineno))
+                yield from self.block_or_dead(stmt.orelse, sb.note("else@%d" % stmt.lineno), "else@%d" % stmt.lineno)
+
+    def block_or_dead(self, stmts, st, label):
+        """a branch outside the supported subset must be unreachable (obligation `dead:`) -- otherwise Unsupported"""
+        nob = len(self.obligations)
+        nsink = [len(x) for x in self.raise_sink]
+        try:
+            outs = list(self.exec_block(stmts, st))
+        except Unsupported as ex:
+            if st.pure or getattr(self, "strict_unsupported", False):
+                raise
+            del self.obligations[nob:]
+            for x, n in zip(self.raise_sink, nsink):
+                del x[n:]
+            self.emit(st, "dead", "%s(%s)" % (label, str(ex)[:60].replace("/", "|")), FALSE)
+            return
+        yield from outs
 
     EXC_PARENTS = {"KeyError": ("LookupError", "Exception"), "IndexError": ("LookupError", "Exception"),
                    "ValueError": ("Exception",), "TypeError": ("Exception",), "AttributeError": ("Exception",),
@@ -638,6 +654,17 @@ class InterpStmts:
                 else:
                     raise Unsupported("loop-modified tuple variable %r needs a kind" % name)
             # functions / classes: not havocked
+        # havocked values are still well-typed Python values (list lengths are non-negative, references allocated)
+        from .verify import valid_tree
+        for name in sorted(names):
+            fid = s.lookup_frame(name)
+            if fid is None:
+                continue
+            cur = s.frames[fid][0][name]
+            if isinstance(cur, SV):
+                w = z3.simplify(valid_tree(cur.kind, cur.tree, s.nref)) if cur.kind.tag != "none" else None
+                if w is not None and not z3.is_true(w):
+                    s.pc.append(w)
         mods = self.active_modifies(st, lc, body_nodes)
         s = self.havoc_heap(s, mods, label)
         return s
@@ -1065,14 +1092,30 @@ class InterpStmts:
         spec, x, s2, dom, guard = self.comp_symbolic(e, st)
         if spec.mode != "seq":
             raise Unsupported("list comprehension over an unordered collection")
-        if not z3.is_true(guard):
-            raise Unsupported("list comprehension with a filter over a symbolic sequence")
         v, _ = self.eval1(e.elt, s2)
         v = self.tup_to_sv(v)
         k = LIST(v.kind)
         res = tfresh(k, "listc")
-        self.define([res[0] == spec.length,
-                     z3.ForAll([x], z3.Implies(dom, teq(tselect(res[1], x), v.tree)))])
+        if z3.is_true(guard):
+            self.define([res[0] == spec.length,
+                         z3.ForAll([x], z3.Implies(dom, teq(tselect(res[1], x), v.tree)))])
+            return SV(k, res)
+        # filtered comprehension: the result is the order-preserving sub-list of the elements passing the filter.
+        # emb: result position -> source position (strictly increasing); inv: its inverse on the passing positions
+        n = spec.length
+        emb = z3.Function(core.fresh_name("emb"), core.I, core.I)
+        inv = z3.Function(core.fresh_name("inv"), core.I, core.I)
+        i, j = z3.Int(core.fresh_name("i")), z3.Int(core.fresh_name("j"))
+        at = lambda t, pos: z3.substitute(t, (x, pos))
+        vt_at = lambda pos: tmap(lambda leaf: z3.substitute(leaf, (x, pos)), v.tree)
+        self.define([
+            res[0] >= 0, res[0] <= z3.If(n > 0, n, 0),
+            z3.ForAll([i], z3.Implies(z3.And(0 <= i, i < res[0]),
+                                      z3.And(0 <= emb(i), emb(i) < n, at(guard, emb(i)), inv(emb(i)) == i,
+                                             teq(tselect(res[1], i), vt_at(emb(i)))))),
+            z3.ForAll([i, j], z3.Implies(z3.And(0 <= i, i < j, j < res[0]), emb(i) < emb(j))),
+            z3.ForAll([x], z3.Implies(z3.And(dom, guard), z3.And(0 <= inv(x), inv(x) < res[0], emb(inv(x)) == x))),
+        ])
         return SV(k, res)
 
     def comp_dict(self, e, st):
@@ -1455,6 +1498,10 @@ class InterpStmts:
                 s2.pc.append(z3.And(r >= 0, r < s2.nref))
             if kd.tag == "obj" and kd.extra in ("Graph", "DiGraph"):
                 s2.pc.extend(self.nx_graph_wf(s2, result))
+            from .verify import valid_tree
+            w = z3.simplify(valid_tree(kd, result.tree, s2.nref)) if kd.tag != "none" else None
+            if w is not None and not z3.is_true(w):
+                s2.pc.append(w)
         # 5. mutated container params
         env_post = dict(env)
         for name in (c.get("mutates") or []):
@@ -1466,6 +1513,10 @@ class InterpStmts:
                 raise Unsupported("mutated parameter %s of %s has no home" % (name, label))
             newv = SV(v.kind, tfresh(v.kind, name), v.origin)
             s2 = self.store(s2, v.origin, newv)
+            from .verify import valid_tree
+            w = z3.simplify(valid_tree(v.kind, newv.tree, s2.nref))
+            if not z3.is_true(w):
+                s2.pc.append(w)
             env_post[name] = newv
         # 6. postconditions
         env_post["result"] = result
